@@ -556,6 +556,36 @@ fn judge_moves(rep: &Reporter, moves: &str, final_fen: &str, n: &AtomicU64) {
     }
 }
 
+/// token identity: the decoded list must be exactly the transmitted tokens, whatever squares they
+/// name (no token may be rewritten, merged, split or dropped); these lists are not games, so the
+/// consumer replay is not applied
+fn judge_tokens(rep: &Reporter, tokens: &[String], n: &AtomicU64) {
+    let moves = tokens.join(" ");
+    for (wrap, ty) in [(false, "gameState"), (true, "gameFull")] {
+        let doc = if wrap { game_full_base(state_base(&moves)) } else { state_base(&moves) };
+        let text = to_text(&doc, false);
+        n.fetch_add(1, Ordering::Relaxed);
+        let case = |extra: Value| json!({"kind": "lichess_tokens", "moves": moves, "shape": ty, "detail": extra});
+        match guarded(|| serde_json::from_str::<BotGameState>(&text).map_err(|e| e.to_string())) {
+            Err(m) => rep.report("panic:moves".to_string(), case(json!({"panic": m}))),
+            Ok(Err(e)) => rep.report(format!("decode_error:{}:moves", ty), case(json!({"error": e}))),
+            Ok(Ok(BotGameState::GameState { state })) | Ok(Ok(BotGameState::GameFull { state, .. })) => {
+                if state.moves != tokens {
+                    let first = state.moves.iter().zip(tokens.iter()).position(|(a, b)| a != b);
+                    rep.report("move_token_changed_by_decoding".to_string(), case(json!({"decoded": state.moves, "first_difference": first})));
+                } else {
+                    for t in &state.moves {
+                        if UciMove::from_str(t).is_err() {
+                            rep.report("decoded_move_rejected_by_uci_parser".to_string(), case(json!({"token": t})));
+                        }
+                    }
+                }
+            }
+            Ok(Ok(_)) => rep.report("decoded_as_other_variant".to_string(), case(json!({}))),
+        }
+    }
+}
+
 fn main() {
     let args: Vec<String> = std::env::args().collect();
     silence_panics();
@@ -574,6 +604,10 @@ fn main() {
                 let src: Value = serde_json::from_str(case["document"].as_str().unwrap_or("null")).unwrap_or(Value::Null);
                 let escaped = case["document"].as_str().unwrap_or("").contains("\\u");
                 judge(&rep, which, &src, "replay", escaped, &n);
+            }
+            "lichess_tokens" => {
+                let toks: Vec<String> = case["moves"].as_str().unwrap_or("").split(' ').map(|s| s.to_string()).collect();
+                judge_tokens(&rep, &toks, &n);
             }
             "lichess_moves" => {
                 let moves = case["moves"].as_str().unwrap_or("");
@@ -605,6 +639,27 @@ fn main() {
     let n_moves = AtomicU64::new(0);
     par_map(&lists, |(m, fen)| judge_moves(&rep, m, fen, &n_moves));
 
+    // every move token (64 x 64 x {-,q,r,b,n}) at the start, in the middle and at the end of a list
+    let mut token_lists: Vec<Vec<String>> = Vec::new();
+    for from in 0..64u8 {
+        for to in 0..64u8 {
+            if from == to {
+                continue;
+            }
+            for suf in ["", "q", "r", "b", "n"] {
+                let t = format!("{}{}{}", refchess::sq_name(from), refchess::sq_name(to), suf);
+                if suf.is_empty() {
+                    token_lists.push(vec![t.clone()]);
+                    token_lists.push(vec![t.clone(), "e7e5".into()]);
+                    token_lists.push(vec!["e2e4".into(), t.clone()]);
+                }
+                token_lists.push(vec!["e2e4".into(), t, "g8f6".into()]);
+            }
+        }
+    }
+    let n_tokens = AtomicU64::new(0);
+    par_map(&token_lists, |l| judge_tokens(&rep, l, &n_tokens));
+
     // informational probe (never a verdict): wire spellings this sandbox cannot confirm offline
     let mut probe = Vec::new();
     for (name, doc) in [
@@ -624,7 +679,8 @@ fn main() {
     }
     let mut cov = Coverage::new();
     cov.states = docs.v.len() as u64 + lists.len() as u64;
-    cov.transitions = n_docs.load(Ordering::Relaxed) + n_moves.load(Ordering::Relaxed);
+    cov.transitions = n_docs.load(Ordering::Relaxed) + n_moves.load(Ordering::Relaxed) + n_tokens.load(Ordering::Relaxed);
+    cov.set("token_identity_lists", json!(token_lists.len()));
     cov.traces_validated = cov.transitions;
     cov.set("documents", json!(docs.v.len()));
     cov.set("documents_by_family", json!(fam_counts));
